@@ -4,7 +4,7 @@ CONSTANTS NK = 3
   KMax <- M3ow
   KGen <- G3ow
   MaxN = 1
-  OtherKinds <- OthersOne
+  OtherKinds <- OthersA
   RawModes <- RawNone
   D = 0
 INIT Init
